@@ -309,6 +309,63 @@ fn run_label_programs(rep: &Report, n: usize, core: bool, seed: u64) {
     rep.count("whole programs addressing data labels defined under several `set` directives", n as u64);
 }
 
+/// every one of the 2^16 segment values, with the offsets around the point where that segment's window runs off the
+/// end of the 1 MiB space (segments from 0xF001 up have one) and the ends of the window: a shortcut taken for "segments
+/// that cannot wrap", a table per segment, a boundary rounded to the wrong paragraph shows at one segment value only.
+/// Byte and word loads and stores through DS, SS (BP forms), an override and a data label; the string and stack
+/// segments are swept by the same rule.
+fn segment_sweep(rep: &Report) {
+    par_for(16, 1, |t| {
+        let mut rng = Rng::new(0x5E65).fork(t as u64);
+        let mut b = Bench::new(0x5E + t as u32);
+        b.add_data_label("swb", 0xFFF7);
+        b.add_data_label("sww", 0x0019);
+        let mut agg = FailAgg::new();
+        let mut loc = Local::default();
+        let mut wraps = 0u64;
+        for s in (t..0x10000usize).step_by(16) {
+            let s = s as u16;
+            // first offset whose physical address is 2^20 (if the window reaches it)
+            let wrap_at: i64 = (1i64 << 20) - 16 * s as i64;
+            let mut offs: Vec<u16> = vec![0, 0xFFFF];
+            if wrap_at <= 0xFFFF {
+                wraps += 1;
+                for d in [-2i64, -1, 0, 1, 15] {
+                    let o = wrap_at + d;
+                    if (0..=0xFFFF).contains(&o) {
+                        offs.push(o as u16);
+                    }
+                }
+            } else {
+                offs.push(rng.u16());
+            }
+            for (oi, o) in offs.iter().enumerate() {
+                let form = (s as usize / 16 + oi) % 8;
+                let mut pre = hostile_regs(&mut rng);
+                let m = |seg: Option<SR>, form: MemForm| Mem { seg, form };
+                let ins = match form {
+                    0 => { pre[DS] = s; pre[BX] = *o; Ins::Mov(Loc::R8(R8::AL), Src::Loc(Loc::Mem(W::B, m(None, MemForm::Ind(R16::BX))))) }
+                    1 => { pre[DS] = s; pre[SI] = o.wrapping_sub(3); Ins::Mov(Loc::Mem(W::W, m(None, MemForm::Indexed(R16::SI, 3))), Src::Loc(Loc::R16(R16::DX))) }
+                    2 => { pre[SS] = s; pre[BP] = *o; Ins::Mov(Loc::R16(R16::CX), Src::Loc(Loc::Mem(W::W, m(None, MemForm::Based(R16::BP, 0))))) }
+                    3 => { pre[ES] = s; pre[DI] = *o; Ins::Mov(Loc::Mem(W::B, m(Some(SR::ES), MemForm::Ind(R16::DI))), Src::Imm(0x5A)) }
+                    4 => { pre[SS] = s; pre[BX] = o.wrapping_sub(pre[SI]); Ins::Un(Un::Not, Loc::Mem(W::W, m(Some(SR::SS), MemForm::BasedIndexed(R16::BX, R16::SI, None)))) }
+                    5 => { pre[DS] = ((((s as u32) << 4).wrapping_add(*o as u32).wrapping_sub(0xFFF7) >> 4) & 0xFFFF) as u16; Ins::Mov(Loc::R8(R8::BH), Src::Loc(Loc::Label(W::B, "swb".into()))) }
+                    6 => { pre[DS] = s; Ins::Mov(Loc::Label(W::W, "sww".into()), Src::Loc(Loc::R16(R16::AX))) }
+                    _ => { pre[SS] = s; pre[SP] = o.wrapping_add(2); Ins::Push(Loc::R16(R16::DX)) }
+                };
+                let line = ins.ir();
+                check_ins(&mut b, &ins, &line, &pre, &mut agg, true, "C04 segment sweep", &|c| if c.starts_with("flag:") { None } else { Some(format!("ea:segment-sweep:{}:{}", ["load8", "store16", "load16-bp", "store8-es", "rmw16-ss", "load8-label", "store16-label", "push"][form], comp_class(c))) });
+                loc.evals += 1;
+            }
+            loc.distinct.insert(fnv64(format!("sweep|{:04x}", s).as_bytes()));
+        }
+        loc.counters.insert("segment sweep: segment values whose window wraps at 2^20", wraps);
+        agg.flush(rep);
+        loc.flush(rep);
+    });
+    rep.count("segment sweep: segment values (all 2^16)", 65536);
+}
+
 pub fn run(rep: &Report) {
     run_label_programs(rep, 24, true, 0xC04);
     run_label_programs(rep, if rep.thorough() { 3000 } else { 60 }, false, rep.seed ^ 0x4C);
@@ -316,6 +373,7 @@ pub fn run(rep: &Report) {
     run_source(rep, 4, true, 0xC04);
     run_labels(rep, 1536, true, 0xC04);
     run_alias(rep);
+    segment_sweep(rep);
     let t = rep.thorough();
     run_forms(rep, if t { 400 } else { 6 }, false, rep.seed ^ 0x40);
     run_source(rep, if t { 300 } else { 6 }, false, rep.seed ^ 0x42);
@@ -358,4 +416,4 @@ pub fn run(rep: &Report) {
     rep.floor("operand-form evaluations", rep.evals(), 100_000);
 }
 
-pub const RULE: &str = "all 5 addressing shapes x every base/index register choice x {no override, ES, CS, SS, DS} (85 shapes) x a displacement set incl. 0, +-1, 0x7FFF, -0x8000 x 11 access kinds (byte/word loads, stores of registers and immediates, read-modify-writes, LEA) from hostile register/segment states (sums crossing 0xFFFF and 0xFFFFF) with a position-dependent memory pattern and whole-memory diff, on the instruction plane (hand-rendered IR) and on the source plane (assembler syntax through the real Preprocessor, random case/radix/white space, based-indexed form with and without displacement); data-label operands at offsets 0..0xFFFF with arbitrary DS; byte-register aliasing over all 2^16 parent values. Distinct = (shape, access kind, offset-sum form, physical wrap, accept-set member). Whole programs with data labels defined under repeated / interleaved `set` directives, every label read, written and read back through the binary; operands aimed at the last bytes of memory. The end-of-memory plane also draws from every production with a memory operand (incl. segment-register MOV, PUSH/POP of memory); in the seeded source slice every second memory operand is passed as a macro argument.";
+pub const RULE: &str = "all 5 addressing shapes x every base/index register choice x {no override, ES, CS, SS, DS} (85 shapes) x a displacement set incl. 0, +-1, 0x7FFF, -0x8000 x 11 access kinds (byte/word loads, stores of registers and immediates, read-modify-writes, LEA) from hostile register/segment states (sums crossing 0xFFFF and 0xFFFFF) with a position-dependent memory pattern and whole-memory diff, on the instruction plane (hand-rendered IR) and on the source plane (assembler syntax through the real Preprocessor, random case/radix/white space, based-indexed form with and without displacement); data-label operands at offsets 0..0xFFFF with arbitrary DS; byte-register aliasing over all 2^16 parent values; segment sweep: every one of the 2^16 segment values with the offsets around the point where its window passes 2^20 (-2..+1, +15) and the window's ends, through eight access forms (DS, SS/BP, ES override, SS override, data labels, PUSH). Distinct = (shape, access kind, offset-sum form, physical wrap, accept-set member). Whole programs with data labels defined under repeated / interleaved `set` directives, every label read, written and read back through the binary; operands aimed at the last bytes of memory. The end-of-memory plane also draws from every production with a memory operand (incl. segment-register MOV, PUSH/POP of memory); in the seeded source slice every second memory operand is passed as a macro argument.";
